@@ -54,20 +54,41 @@ example : (Kind.all.map fun k => (pathsOf (table k).ctor .ctorErr).length) = [0,
 theorem missed_exit_leaks :
     ∃ p ∈ pathsOf [.L, .G, .rete, .U, .fin] .ctorErr, (activation p (Delta.start 0)).held = 1 := by decide
 
-/-- **C10 (lock busy).** If somebody else holds the lock when a session wants it - whatever the session's outcome,
-    cancellation while it waits included - the session takes it after the holder's release and the store ends
-    balanced; nobody is left queued for the lock. -/
-theorem busy_balanced (k : Kind) (o : Outcome) : ∀ d ∈ busyFrom (table k) o, Balanced d := by
+/-- **C10 (lock held by somebody else).** The session begins while another holder has the lock. Where the session
+    asks for it (constructor, or `Run` for ECDSA keygen) it finds it taken and waits - `LockKeyshare` ignores
+    cancellation - until the holder releases (assumed to happen). For every kind, outcome and path taken after the
+    wait: the store ends balanced, the holder has released, and the session waited at most once. -/
+theorem contended_balanced (k : Kind) (o : Outcome) :
+    ∀ c ∈ contendedFrom (table k) o, Balanced c.d ∧ c.hHolds = false ∧ c.waited ≤ 1 := by
   cases k <;> cases o <;> decide
 
-/-- the class re-derived: a lock acquisition that outlives its `Run` (taken in a helper goroutine whose owner has
-    already returned on ctx.Done) is never paired with a release -/
-theorem orphan_acquisition_leaks : (holder.add (activation [.L] (Delta.start 0))).held = 1 := by decide
+/-- non-vacuity: the model really meets the held lock - every kind whose constructor locks waits exactly once, ECDSA
+    keygen waits once in `Run` and not at all when it never runs -/
+example :
+    (contendedFrom (table .fkeygen) .never).all (·.waited = 1) = true ∧
+    (contendedFrom (table .esigning) .refused).all (·.waited = 1) = true ∧
+    (contendedFrom (table .ekeygen) .rejected).all (·.waited = 1) = true ∧
+    (contendedFrom (table .ekeygen) .never).all (·.waited = 0) = true := by decide
 
-/-- **C10 (entry points).** The event handlers add nothing to the session they start: for every kind and outcome the
-    store is balanced after `HandleEvents`; the seeded variant that stops a failed process once more releases twice. -/
-theorem handlers_balanced (k : Kind) (o : Outcome) : ∀ d ∈ handlerFrom false (table k) o 0, Balanced d := by
-  cases k <;> cases o <;> decide
+/-- the class re-derived: an acquisition that is still queued when its `Run` has already returned (taken in a helper
+    goroutine, `Run` left on ctx.Done) completes after the holder's release and is never paired with a release -/
+theorem orphan_acquisition_leaks :
+    (evStepC (CState.init, 0) .L).1.d.held = 1 ∧ (evStepC (CState.init, 0) .L).1.d.locks = 2 ∧
+    (evStepC (CState.init, 0) .L).1.d.unlocks = 1 := by decide
+
+/-- **C10 (exclusive while running, as far as the table sees).** For key generation and resharing no release occurs
+    between the start of the protocol (`Wait`) and the end of `Run`; the lock is given back only by a deferred
+    unlock at `Run`'s exit or by `Stop`. -/
+theorem no_release_while_running (k : Kind) (hk : k.exclusive = true) :
+    ∀ p ∈ pathsOf (table k).run .full, noReleaseAfterW p = true := by
+  cases k <;> simp [Kind.exclusive] at hk <;> decide
+
+/-- **C10 (entry points).** Oblig/C10 `gen_handlers` establishes from the source that each event handler is
+    "constructor, then Execute, nothing in between that can return, no Stop afterwards"; under that fact a handler's
+    session IS the session of `table_balanced` (`handlerFrom false` unfolds to `sessionFrom`), so this is a corollary,
+    not a new result. The seeded variant that stops a failed process once more releases twice. -/
+theorem handlers_balanced (k : Kind) (o : Outcome) : ∀ d ∈ handlerFrom false (table k) o 0, Balanced d :=
+  table_balanced k o
 
 theorem extra_stop_double_release : ∃ d ∈ handlerFrom true (table .fkeygen) .never 0, d.fatal = 1 := by decide
 
